@@ -169,7 +169,7 @@ Export ==
   done =>
     CSVWrite("%1$s",
       <<ToJson([kind |-> "ms", cls |-> MsClassOf, s |-> MsStr(s),
-                m |-> o.m, M |-> o.M, N |-> o.N, L |-> o.L, f |-> o.f, re |-> IF o.re THEN 1 ELSE 0,
+                umin |-> o.m, umax |-> o.M, cnt |-> o.N, minlen |-> o.L, flank |-> o.f, re |-> IF o.re THEN 1 ELSE 0,
                 outs |-> SetToSeq({MsOutRec(r) : r \in res.outs}),
                 dep |-> res.dep,
                 codedrop |-> IF res.code = <<>> THEN 1 ELSE 0])>>,
